@@ -66,6 +66,9 @@ type Case struct {
 
 // ModelNormalizers rewrite a model observation before comparison (by command head), e.g. to
 // render float placeholders with the implementation's own formatter.
+// PairNormalizers see both observations (e.g. to skip the calls of a history the model cannot express)
+var PairNormalizers = map[string]func(impl, model string) (string, string){}
+
 var ModelNormalizers = map[string]func(*sx.Sexp) *sx.Sexp{}
 
 type ImplFunc func(cmd, meta *sx.Sexp) (obs *sx.Sexp, oracleFail string)
@@ -474,6 +477,10 @@ func Run(pid, tier string, seed uint64, driver, outPath, corpusDir string, only 
 					m = nf(mx).String()
 				}
 			}
+			implObs := impl[i].obs
+			if pf := PairNormalizers[headOf(c.Cmd)]; pf != nil {
+				implObs, m = pf(implObs, m)
+			}
 			iss.Model = m
 			if strings.HasPrefix(m, "(unsupported") {
 				st.Unsupported++
@@ -488,7 +495,7 @@ func Run(pid, tier string, seed uint64, driver, outPath, corpusDir string, only 
 					x.Model = m
 					res.Issues = append(res.Issues, x)
 				}
-			} else if m == impl[i].obs {
+			} else if m == implObs {
 				st.Agreements++
 			} else {
 				x := iss
